@@ -19,7 +19,7 @@ def run(ctx):
     n, cases, kinds = ic.run(ctx, "C01", ["honest"])
     # Verdicts.tla: every history of honest and refused requests on ONE long-lived issuer (and one request object per issuer side)
     vn, vcases, vdepth = vc.run(ctx, ["t1issue", "t2issue", "t5issue", "t3issue"])
-    an, acases = ag.run(ctx, ['t5issue'])   # Ages.tla: one type-5 issuer over tens of thousands of requests
+    an, acases = ag.run(ctx, ['t5issue', 'rlissuer'])   # Ages.tla: one type-5 issuer over tens of thousands of requests
     return ctx.finish({
         **ag.coverage(an, acases),
         "traces_validated_against_impl": n,
